@@ -151,5 +151,5 @@ func TestC03(t *testing.T) { runHistProperty(t, "C03", 320, 12000) }
 func TestC04(t *testing.T) { runHistProperty(t, "C04", 320, 12000) }
 func TestC05(t *testing.T) { runHistProperty(t, "C05", 384, 16000) }
 func TestC06(t *testing.T) { runHistProperty(t, "C06", 320, 12000) }
-func TestC13(t *testing.T) { runHistProperty(t, "C13", 320, 12000) }
+func TestC13(t *testing.T) { runHistProperty(t, "C13", 640, 16000) }
 func TestC14(t *testing.T) { runHistProperty(t, "C14", 320, 12000) }
